@@ -149,12 +149,17 @@ def gen_vhdx(rng, parent_name=None, disk_id=None):
         rng.shuffle(kv)
         hdr = G["ploc_type"].bytes_le + struct.pack("<HH", 0, len(kv))
         base = len(hdr) + 12 * len(kv)
-        body, ents = b"", b""
-        for k_, v_ in kv:
-            kb, vb = k_.encode("utf-16-le"), v_.encode("utf-16-le")
-            gap = rng.choice([0, 0, 2])
-            ents += struct.pack("<IIHH", base + len(body), base + len(body) + len(kb) + gap, len(kb), len(vb))
-            body += kb + b"\0" * gap + vb
+        # MS-VHDX 2.6.2.6.2: the strings live anywhere in the item after the entry table; the table order says nothing about where
+        # (half of the images keep table order, the others place all keys and values in an independent random order with gaps)
+        strs = [(i, w, t.encode("utf-16-le")) for i, (k_, v_) in enumerate(kv) for w, t in ((0, k_), (1, v_))]
+        if rng.random() < 0.5:
+            rng.shuffle(strs)
+        body, pos = b"", {}
+        for i, w, bts in strs:
+            body += b"\0" * rng.choice([0, 0, 2])
+            pos[(i, w)] = base + len(body)
+            body += bts
+        ents = b"".join(struct.pack("<IIHH", pos[(i, 0)], pos[(i, 1)], len(k_.encode("utf-16-le")), len(v_.encode("utf-16-le"))) for i, (k_, v_) in enumerate(kv))
         items.append((G["ploc"], hdr + ents + body))
     rng.shuffle(items)
     mh = b"metadata" + b"\0" * 2 + struct.pack("<H", len(items)) + b"\0" * 20
@@ -197,6 +202,14 @@ def check_vhdx(rng):
             diff("parent_locator.entries", dict(v.parent_locator.entries), w["locator"], out)
             diff("parent_locator.type", v.parent_locator.type, G["ploc_type"], out)
             diff("parent.id", v.parent.id if v.parent is not None else None, pw["id"], out)
+            if v.parent is not None:
+                # two images open in one process: what the parent's metadata table answers must still be the parent's own items
+                from dissect.hypervisor.disk.vhdx import LOGICAL_SECTOR_SIZE_GUID, PARENT_LOCATOR_GUID, VIRTUAL_DISK_SIZE_GUID
+
+                diff("parent.metadata[virtual disk size] with the child open", v.parent.metadata.get(VIRTUAL_DISK_SIZE_GUID), pw["size"], out)
+                diff("parent.metadata[logical sector size] with the child open", v.parent.metadata.get(LOGICAL_SECTOR_SIZE_GUID), pw["sector_size"], out)
+                diff("parent.metadata[parent locator] with the child open (the parent has none)", v.parent.metadata.get(PARENT_LOCATOR_GUID, required=False), None, out)
+                diff("child.metadata[virtual disk size] with the parent open", v.metadata.get(VIRTUAL_DISK_SIZE_GUID), w["size"], out)
         v.fh.close() if hasattr(v.fh, "close") else None
         if v.parent is not None and hasattr(v.parent.fh, "close"):
             v.parent.fh.close()
